@@ -145,7 +145,7 @@ const OUT_NAMES: [&str; 16] = [
     "DRDY_out", "Mx_out", "IO2", "BUSY_out",
 ];
 const BIDIR_NAMES: [&str; 7] = ["D", "IO", "BUS", "DQ", "M", "DQS", "IO2x"];
-const ODD_NAMES: [&str; 8] = [
+const ODD_NAMES: [&str; 11] = [
     "ALU-~RESET",
     "Q[0]",
     "é",
@@ -154,9 +154,14 @@ const ODD_NAMES: [&str; 8] = [
     "7seg",
     "loop",
     "A&B",
+    "A#B",
+    "#Q",
+    "(P)",
 ];
 const VIRT_NAMES: [&str; 5] = ["V", "W", "chk", "U", "V2"];
-const VAR_NAMES: [&str; 10] = ["a", "b", "i", "j", "k", "v", "m", "p", "cnt", "val"];
+// (X, Z, C, x, z, c are ordinary identifiers inside expressions; only a bare row entry means
+// don't-care / high-Z / clock)
+const VAR_NAMES: [&str; 14] = ["a", "b", "i", "j", "k", "v", "m", "p", "cnt", "val", "X", "Z", "c", "C"];
 
 pub fn is_identlike(s: &str) -> bool {
     let mut ch = s.chars();
